@@ -28,9 +28,9 @@ def run(tier):
                       "IvsTrace checks the contract (each added set retrievable region by region through its mapped "
                       "index) and the reader's compute_delta at probe locations against exact rational tent scalars; "
                       "fvar normalisation and avar segment maps are checked as relations (end points, clamping, "
-                      "monotone, within one F2Dot14 unit of the exact line). The variation stores of the corpus fonts (HVAR, VVAR, MVAR, GDEF, COLR) are read raw and every row read-fonts decodes is compared with Ivs.tla's decoding of the bytes. A store of 70 000 (thorough 140 000) rows of one shape plus two small encodings is built, every row is looked up through the returned index and the reader, and the raw bytes of ~270 rows (around the 65 535-row split, the tail, every 1499th) are decoded and judged by IvsTrace!TIvsRow.")
+                      "monotone, within one F2Dot14 unit of the exact line). The variation stores of the corpus fonts (HVAR, VVAR, MVAR, GDEF, COLR) are read raw and every row read-fonts decodes is compared with Ivs.tla's decoding of the bytes. Synthetic variable fonts (hmtx with fewer long metrics than glyphs; HVAR with explicit, truncated, missing or implicit index maps) are measured through skrifa's GlyphMetrics at probe locations and IvsTrace!THvar checks advance / side bearing = hmtx base + the delta of the compiled table (raw index maps and rows) and of the delta sets given per glyph. A store of 70 000 (thorough 140 000) rows of one shape plus two small encodings is built, every row is looked up through the returned index and the reader, and the raw bytes of ~270 rows (around the 65 535-row split, the tail, every 1499th) are decoded and judged by IvsTrace!TIvsRow.")
     ck.assumptions = ["region and location coordinates are multiples of 0.25 so that exact rational arithmetic fits TLC integers",
-                      "HVAR advance/side-bearing deltas through skrifa's GlyphMetrics are not covered yet",
+                      "HVAR metrics are checked on synthetic fonts (regions at multiples of 0.25); scaled metrics (ppem sizes) are not judged, only font units",
                       "in the quick tier every 8th enumerated history is shipped to TLC (all go through the builder and readers)"]
     wd = vlib.workdir(PID)
     vlib.stage_specs(wd, "formats", "common")
